@@ -879,6 +879,26 @@ Definition front_out_shape_v (fx : fixes) (a : eargs) : option (list Z) :=
   end.
 Definition front_out_shape := front_out_shape_v no_fixes.
 
+(* --- vocabulary of the general theorems (ParseFacts.v: string_matches_numpy ...) --- *)
+(* rendering of a token list back into a string (no blanks) *)
+Definition unlex1 (t : tok) : str :=
+  match t with
+  | TL c => [c]
+  | TEll => [c_dot; c_dot; c_dot]
+  | TComma => [c_comma]
+  | TArrow => [c_dash; c_gt]
+  end.
+Definition unlex (ts : list tok) : str := concat (map unlex1 ts).
+Definition tok_ok (t : tok) : Prop := match t with TL c => is_letter c = true | _ => True end.
+
+(* sorted(set(s)) filtered by "occurs once" *)
+Definition once_sorted (l : list nat) : list nat :=
+  filter (fun s => Nat.eqb (count s l) 1) (sort_nat (unique l)).
+
+(* the labels of a parsed call: letters occurring in the inputs, broadcast dimensions below |E| *)
+Definition label_in (used : list nat) (E : str) (l : lab) : Prop :=
+  match l with LN c => In c used | LB k => k < length E end.
+
 (* --- structured equations, for stating the theorems over ALL well-formed inputs --- *)
 (* a term: letters before the ellipsis, whether there is one, letters after *)
 Record sterm := mkST { st_pre : list nat; st_ell : bool; st_post : list nat }.
